@@ -760,6 +760,7 @@ class SurFamily(Family):
         }
         self.tol = {}
         self.mutators = {"embedding": self.m_emb,
+                         "twin_surrogates": self.m_twin,
                          "normalize_original_data": self.m_norm}
 
     def init_model(self, case):
@@ -775,16 +776,32 @@ class SurFamily(Family):
             s.embedding = m["emb"].copy()
         return s
 
-    def m_emb(self, o, m, arg):
-        dim, tau = int(arg[0]), int(arg[1])
-        x = m["X"][0]
-        n = len(x) - (dim - 1) * tau
+    @staticmethod
+    def _embed(m, dim, tau):
+        """(N, n_time, dim) delay embedding of the model's current data."""
+        X = m["X"]
+        if m["normalized"]:
+            X = (X - X.mean(axis=1, keepdims=True)) \
+                / X.std(axis=1, keepdims=True)
+        n = X.shape[1] - (dim - 1) * tau
         if n < 3:
             raise Stop()
-        emb = np.array([x[i * tau:i * tau + n] for i in range(dim)]).T
-        if m["normalized"]:
-            emb = (emb - m["X"][0].mean()) / m["X"][0].std()
+        return np.stack([X[:, i * tau:i * tau + n] for i in range(dim)],
+                        axis=2)
+
+    def m_emb(self, o, m, arg):
+        emb = self._embed(m, int(arg[0]), int(arg[1]))
         o.embedding = emb.copy()
+        m["emb"] = emb
+
+    def m_twin(self, o, m, arg):
+        #  twin_surrogates() (re-)embeds the *current* data as a documented
+        #  step of the algorithm: afterwards the object's embedding and its
+        #  twins are those of a new object given that embedding
+        dim, tau = int(arg[0]), int(arg[1])
+        emb = self._embed(m, dim, tau)
+        seed_library_rngs(dim, tau)
+        o.twin_surrogates(dim, tau, float(arg[2]), min_dist=1)
         m["emb"] = emb
 
     def m_norm(self, o, m, arg):
@@ -902,10 +919,17 @@ def ops_strategy(family_name, mut_args, n_min=3, n_max=14, max_q=4):
                              max_size=max_q, unique=True))
         n = draw(st.integers(n_min, n_max))
         ops = []
+        last = {}   # a mutator is often called again with the argument it
+        #             had before (memos keyed on arguments, not on state)
         for _ in range(n):
             if draw(st.integers(0, 2)) == 0:
                 mname = draw(st.sampled_from(sorted(mut_args)))
-                ops.append(["m", mname, draw(mut_args[mname])])
+                if mname in last and draw(st.integers(0, 2)) == 0:
+                    arg = last[mname]
+                else:
+                    arg = draw(mut_args[mname])
+                last[mname] = arg
+                ops.append(["m", mname, arg])
             else:
                 ops.append(["q", draw(st.sampled_from(pats))])
         return ops
@@ -1047,6 +1071,9 @@ def sur_cases(draw):
                       min_size=N, max_size=N))
     margs = {"embedding": st.tuples(st.integers(1, 3),
                                     st.integers(1, 2)).map(list),
+             "twin_surrogates": st.tuples(
+                 st.integers(1, 3), st.integers(1, 2),
+                 st.sampled_from([0.5, 1.0, 2.0])).map(list),
              "normalize_original_data": st.none()}
     return {"family": "Surrogates", "X": X,
             "ops": draw(ops_strategy("Surrogates", margs))}
@@ -1124,7 +1151,7 @@ SUBCHECKS = [
     _sub("joint_recurrence_network",
          lambda: rp_cases("JointRecurrenceNetwork"), (3, 80), (8, 800)),
     _sub("resistive", res_cases, (2, 80), (8, 800)),
-    _sub("surrogates", sur_cases, (2, 80), (4, 1000)),
+    _sub("surrogates", sur_cases, (4, 150), (8, 2000)),
     _sub("climate_data", data_cases, (2, 100), (4, 1500)),
     _sub("derived_climate", derived_cases, (4, 40), (8, 500)),
 ]
@@ -1215,6 +1242,7 @@ def _pair_bases():
                  "set_global_window": [None]}))
     out.append(({"family": "Surrogates", "X": [x12, y12]},
                 {"embedding": [[2, 1], [3, 2]],
+                 "twin_surrogates": [[2, 1, 1.0], [3, 2, 0.5]],
                  "normalize_original_data": [None]}))
     return out
 
@@ -1236,3 +1264,27 @@ def enum_pairs(tier):
 
 SUBCHECKS.append(SubCheck("pairs", oracle, enum=enum_pairs, quick=(12, None),
                           thorough=(12, None)))
+
+
+def enum_returns(tier):
+    """m(a), q, m'(a'), m(a) again, q - for every ordered pair of distinct
+    mutators and every query: a mutator called again with the arguments it
+    had before must take the state changed in between into account."""
+    for base, margs in _pair_bases():
+        f = fam(base["family"])
+        mnames = sorted(margs)
+        for q in sorted(f.queries):
+            for m in mnames:
+                for m2 in mnames:
+                    if m2 == m:
+                        continue
+                    for a in (margs[m][0], margs[m][-1]):
+                        ops = [["m", m, a], ["q", q], ["m", m2, margs[m2][0]],
+                               ["m", m, a], ["q", q]]
+                        yield dict(base, ops=ops)
+                        if tier == "quick":
+                            break
+
+
+SUBCHECKS.append(SubCheck("returns", oracle, enum=enum_returns,
+                          quick=(12, None), thorough=(12, None)))
